@@ -146,10 +146,11 @@ Section WithMerge.
     - destruct (merger s) as [|mbase mll|]; try discriminate.
       destruct (Nat.ltb lvl (length (olist (mid s))) || Nat.eqb (length (olist (mid s))) 0); [|discriminate].
       intros [= <-]. unfold secs_asc; simpl. repeat split; auto.
-      destruct (olist (mid s)) as [|m0 mr] eqn:Em; [constructor|].
-      destruct (Nat.ltb lvl (length (m0 :: mr))); auto.
-      unfold merge_stack, split_at. constructor; [apply merge_range_asc|].
-      now apply segs_asc_skipn.
+      + destruct (olist (mid s)) as [|m0 mr] eqn:Em; [constructor|].
+        destruct (Nat.ltb lvl (length (m0 :: mr))); auto.
+        unfold merge_stack, split_at. constructor; [apply merge_range_asc|].
+        now apply segs_asc_skipn.
+      + destruct (olist (mid s)); [exact Hs|exact I].
     - destruct (merger s); try discriminate.
       destruct (base s) as [bb|] eqn:Eb; destruct (mid s) as [mm|] eqn:Em;
         try (intros [= <-]; unfold secs_asc; simpl; rewrite ?Eb, ?Em; simpl; repeat split; auto; fail).
